@@ -562,6 +562,10 @@ func normalizeValue(
 		d := v.Interface().(time.Duration)
 		return newString(ctx, opts.meta, d.String()), nil
 	case tRegexp:
+		if !v.CanAddr() {
+			// held by value in a map, an interface or a struct passed by value
+			v = addressableCopy(v)
+		}
 		r := v.Addr().Interface().(*regexp.Regexp)
 		return newString(ctx, opts.meta, r.String()), nil
 	}
